@@ -10,15 +10,26 @@ AREAS = {
     },
 }
 
+def _lc_project(s):
+    # the listing section (3rd) is produced by the implementation only; it is judged by the oracle, not compared
+    return ' | '.join(s.split(' | ')[:2])
+
+
 PROPS = {
     'C05': {
         'id': 'C05', 'area': 'lc',
         'theorems': ['Props.C05_once_in_order', 'Props.C05_assigned_own_ecu'],
-        'n_quick': 4000, 'n_thorough': 120000,
+        'n_quick': 4000, 'n_thorough': 120000, 'project': _lc_project,
     },
     'C06': {
         'id': 'C06', 'area': 'lc',
         'theorems': ['Props.C06_published_first', 'Props.C06_invariant'],
-        'n_quick': 4000, 'n_thorough': 120000,
+        'n_quick': 4000, 'n_thorough': 120000, 'project': _lc_project,
+    },
+    'C07': {
+        'id': 'C07', 'area': 'lc',
+        'theorems': ['Props.C07_listing_perm', 'Props.C07_listing_sorted', 'Props.C07_listing_noresume',
+                     'Props.C07_listing_resume'],
+        'n_quick': 4000, 'n_thorough': 120000, 'project': _lc_project,
     },
 }
